@@ -5,7 +5,7 @@ package util
 // Contracts for package util (comment-only; read by /verif/govc).
 
 //@ func SortedSet.Size
-//@   props C02 C03 C14 C16 C17 C18
+//@   props C14 C17 C18
 //@   pure
 //@   allocs <= 0
 //@   ensures result == len(set.elems)
@@ -17,7 +17,7 @@ package util
 //@   ensures result == set.maxLen
 
 //@ func SortedSet.IndexAfter
-//@   props C02 C03 C14 C16 C17 C18
+//@   props C14 C17 C18
 //@   pure
 //@   allocs <= 0
 //@   requires -1 <= n && n < len(set.elems)
@@ -26,14 +26,14 @@ package util
 //@   ensures SetInv(set) && result == -1 ==> (forall q :: n < q && q < len(set.elems) ==> set.elems[q] != e)
 
 //@ func Set.Contains
-//@   props C02 C03 C16 C17 C18
+//@   props C14 C17 C18
 //@   pure
 //@   allocs <= 0
 //@   ensures result ==> (exists q :: 0 <= q && q < len(set.elems) && set.elems[q] == e)
 //@   ensures SetInv(set) && !result ==> (forall q :: 0 <= q && q < len(set.elems) ==> set.elems[q] != e)
 
 //@ func Set.Size
-//@   props C02 C03 C17 C18
+//@   props C14 C17 C18
 //@   pure
 //@   allocs <= 0
 //@   ensures result == len(set.elems)
